@@ -129,7 +129,39 @@ impl<A: HE> HistModel<A> {
         HistModel { axes: axes.to_vec(), edges, shape, points, depth, tally: Arc::new(Tally::default()), _a: std::marker::PhantomData }
     }
     fn grid(&self) -> Grid<A> {
-        Grid::from(self.axes.iter().map(|&a| Bins::new(Edges::from(EDGE_LISTS[a].iter().map(|&c| A::mk(c)).collect::<Vec<A>>()))).collect::<Vec<_>>())
+        // the edge lists reach `Edges` through three constructors, rotating with the axis: a Vec, a fresh
+        // Array1, and an owned Array1 that was narrowed in place (its allocation still holds other values,
+        // here 2 and 6, which would be extra edges inside the range if the raw buffer were used)
+        Grid::from(
+            self.axes
+                .iter()
+                .enumerate()
+                .map(|(k, &a)| {
+                    let list: Vec<A> = EDGE_LISTS[a].iter().map(|&c| A::mk(c)).collect();
+                    let edges = match (k + a) % 3 {
+                        0 => Edges::from(list),
+                        1 => Edges::from(Array1::from(list)),
+                        _ => {
+                            if (k + a) % 2 == 0 {
+                                let mut padded = vec![A::mk(2)];
+                                padded.extend(list.iter().cloned());
+                                padded.push(A::mk(6));
+                                let n = padded.len() as isize;
+                                Edges::from(Array1::from(padded).slice_move(ndarray::s![1..n - 1]))
+                            } else {
+                                let mut inter = Vec::new();
+                                for x in &list {
+                                    inter.push(x.clone());
+                                    inter.push(A::mk(6));
+                                }
+                                Edges::from(Array1::from(inter).slice_move(ndarray::s![..;2]))
+                            }
+                        }
+                    };
+                    Bins::new(edges)
+                })
+                .collect::<Vec<_>>(),
+        )
     }
     /// reference: cell of a point by linear scan over the sorted edges, or None
     fn ref_cell(&self, p: &[i32]) -> Option<Vec<usize>> {
